@@ -132,8 +132,10 @@ example : some "C" ∈ [none, some "B", some "C"] ∧ firstErr [none, some "B", 
 
 /-! ## The setters of `SvmParams` (call chains `Svm::params().s1(..).s2(..)…`) -/
 
-/-- after ANY chain of setter calls exactly one of `c` / `nu` is set: the arm
-`_ => panic!("Set either C value or Nu value")` of the classification and regression `fit`s is unreachable -/
+/-- after ANY chain of setter calls (as modelled by `svmRun`, which the driver runs on every `via=setters` request and
+whose resulting fields the harness reads back from the real builder) exactly one of `c` / `nu` is set.  (Consequence
+for the code, NOT modelled here: the arm `_ => panic!("Set either C value or Nu value")` of the `fit`s needs both or
+neither to be set.) -/
 theorem svm_setters_exactly_one {α : Type} (k : SvmConsts α) (ops : List (SvmSet α)) :
     (svmRun k ops).c.isSome = !(svmRun k ops).nu.isSome :=
   svmFold_exactly_one k ops (svmNew k) rfl
@@ -277,7 +279,7 @@ example : Ranges.DecisionTree.Finite { min_impurity_decrease := .fin (1/100000),
 /-- the carrier matters: 1e-9-ish values pass at f64 and are rejected at f32 -/
 example : Ranges.DecisionTree.InRange { min_impurity_decrease := .fin (1/1000000000), carrier := .f64 } ∧
     ¬ Ranges.DecisionTree.InRange { min_impurity_decrease := .fin (1/1000000000), carrier := .f32 } ∧
-    Gen.C04.DecisionTree.check { min_impurity_decrease := .fin (1/1000000000), carrier := .f32 } = .error "Parameters:Minimum_impurity_decreas" := by
+    Gen.C04.DecisionTree.check { min_impurity_decrease := .fin (1/1000000000), carrier := .f32 } ≠ .ok () := by
   simp [Ranges.DecisionTree.InRange, Ranges.DecisionTree.epsQ, Gen.C04.DecisionTree.check, Gen.C04.DecisionTree.guards, XF.epsOf, XF.eps32] <;> norm_num
 example : Ranges.DecisionTree.Finite { min_impurity_decrease := .fin 0, carrier := .f64 } ∧ ¬ Ranges.DecisionTree.InRange { min_impurity_decrease := .fin 0, carrier := .f64 } := by
   simp [Ranges.DecisionTree.Finite, Ranges.DecisionTree.InRange, Ranges.DecisionTree.epsQ, XF.Finite]
@@ -494,7 +496,7 @@ theorem Gmm.withRng_rejects (p : Gen.C04.Gmm.Params) (h : Ranges.Gmm.Finite p) (
   | error t => exact ⟨t, rfl⟩
   | ok u => exact absurd ((Gmm.check_ok_iff p h).mp (by rw [hc])) hbad
 example : Gen.C04.Gmm.check (Ranges.Gmm.withRng { n_clusters := 2, tolerance := .fin (1/1000), reg_covar := .fin 0, n_runs := 1, max_n_iter := 0 })
-    = .error "InvalidValue:_max_n_iterations__canno" := by
+    ≠ .ok () := by
   simp [Ranges.Gmm.withRng, Gen.C04.Gmm.check, Gen.C04.Gmm.guards]
 
 /-- `RandomProjectionParams::with_rng` copies the `Dimension` / `Epsilon` variant -/
@@ -514,6 +516,126 @@ theorem tfidf_setter_preserves {P E M M' Mt D : Type} (chk : P → Except E Unit
   exact (wrap_on_unchecked chk fit wrap _ d).1 e (by simpa [Ranges.tfidfSet, h] using he)
 example : wrapUnchecked (fun n : Nat => if n = 0 then .error "zero" else .ok ())
     (fun n (_ : Unit) => (.ok (n + 1) : Except String Nat)) (fun m => (m, m)) (Ranges.tfidfSet id ((0 : Nat), "smooth")).1 () = .error "zero" := rfl
+
+/-! ## Non-finite values: builders whose documentation (or guard text) demands FINITE values
+
+For these the equivalence holds for ALL parameter values, without the hypothesis `Finite p` (`InRange` demands finite
+values through `XF.Sat`): a NaN / infinite value is rejected.  Removing a `!x.is_finite()` / `is_nan() || is_infinite()`
+conjunct from one of these guards breaks the theorem (under `Finite` such a conjunct is dead, so `check_ok_iff` alone
+would not notice). -/
+
+/-- FTRL ("alpha / beta must be positive and finite", ratios "in range [0, 1]"): no finiteness hypothesis -/
+theorem Ftrl.check_ok_iff_total (p : Gen.C04.Ftrl.Params) :
+    Gen.C04.Ftrl.check p = .ok () ↔ Ranges.Ftrl.InRange p := by
+  obtain ⟨l1_ratio, l2_ratio, alpha, beta⟩ := p
+  cases alpha <;> cases beta <;>
+    simp [Gen.C04.Ftrl.check, Gen.C04.Ftrl.guards, Ranges.Ftrl.InRange, Ranges.unit01, Ranges.nonneg, XF.inClosed01_iff, XF.isFinite, XF.isNegative, XF.Sat]
+example : Gen.C04.Ftrl.check { l1_ratio := .fin (1/2), l2_ratio := .fin 1, alpha := .nan, beta := .fin 0 } ≠ .ok () ∧
+    Gen.C04.Ftrl.check { l1_ratio := .fin (1/2), l2_ratio := .fin 1, alpha := .fin 1, beta := .pinf } ≠ .ok () := by
+  simp [Ftrl.check_ok_iff_total, Ranges.Ftrl.InRange, XF.Sat]
+
+/-- logistic regression ("alpha / gradient_tolerance must be a positive, finite number", "initial parameters must be finite") -/
+theorem Logistic.check_ok_iff_total (p : Gen.C04.Logistic.Params) :
+    Gen.C04.Logistic.check p = .ok () ↔ Ranges.Logistic.InRange p := by
+  obtain ⟨alpha, gradient_tolerance, initial_params⟩ := p
+  cases initial_params <;> cases alpha <;> cases gradient_tolerance <;>
+    simp [Gen.C04.Logistic.check, Gen.C04.Logistic.guards, Ranges.Logistic.InRange, XF.Finite, XF.isFinite, XF.lt, XF.le, XF.zero, XF.Sat]
+example : Gen.C04.Logistic.check { alpha := .pinf, gradient_tolerance := .fin 1, initial_params := none } ≠ .ok () ∧
+    Gen.C04.Logistic.check { alpha := .fin 1, gradient_tolerance := .nan, initial_params := none } ≠ .ok () := by
+  simp [Logistic.check_ok_iff_total, Ranges.Logistic.InRange, XF.Sat]
+
+/-- PLS, generic and macro-generated builders (guard: negative, NaN and infinite tolerances are `InvalidTolerance`) -/
+theorem Pls.check_ok_iff_total (p : Gen.C04.Pls.Params) :
+    Gen.C04.Pls.check p = .ok () ↔ Ranges.Pls.InRange p := by
+  obtain ⟨tolerance, max_iter⟩ := p
+  cases tolerance <;>
+    simp [Gen.C04.Pls.check, Gen.C04.Pls.guards, Ranges.Pls.InRange, XF.isNegative, XF.isNan, XF.isInfinite, XF.Sat] <;> omega
+theorem PlsMacro.check_ok_iff_total (p : Gen.C04.PlsMacro.Params) :
+    Gen.C04.PlsMacro.check p = .ok () ↔ Ranges.PlsMacro.InRange p := by
+  obtain ⟨tolerance, max_iter⟩ := p
+  cases tolerance <;>
+    simp [Gen.C04.PlsMacro.check, Gen.C04.PlsMacro.guards, Ranges.PlsMacro.InRange, XF.isNegative, XF.isNan, XF.isInfinite, XF.Sat] <;> omega
+example : Gen.C04.PlsMacro.check { tolerance := .nan, max_iter := 5 } ≠ .ok () ∧ Gen.C04.Pls.check { tolerance := .pinf, max_iter := 5 } ≠ .ok () := by
+  simp [PlsMacro.check_ok_iff_total, Pls.check_ok_iff_total, Ranges.PlsMacro.InRange, Ranges.Pls.InRange, XF.Sat]
+
+/-- hierarchical clustering (`Distance(x)`: negative, NaN and infinite thresholds are invalid) -/
+theorem Hierarchical.check_ok_iff_total (p : Gen.C04.Hierarchical.Params) :
+    Gen.C04.Hierarchical.check p = .ok () ↔ Ranges.Hierarchical.InRange p := by
+  obtain ⟨stopping⟩ := p
+  cases stopping with
+  | NumClusters n =>
+    cases n <;> simp [Gen.C04.Hierarchical.check, Gen.C04.Hierarchical.guards, Ranges.Hierarchical.InRange]
+  | Distance x =>
+    cases x <;>
+      simp [Gen.C04.Hierarchical.check, Gen.C04.Hierarchical.guards, Ranges.Hierarchical.InRange, XF.isNegative, XF.isNan, XF.isInfinite, XF.Sat]
+example : Gen.C04.Hierarchical.check { stopping := .Distance .nan } ≠ .ok () := by
+  simp [Hierarchical.check_ok_iff_total, Ranges.Hierarchical.InRange, XF.Sat]
+
+/-- SVM: a NaN / infinite solver tolerance is rejected whatever the other fields are (the weights are compared with `<=`
+only: a NaN weight passes, which is outside the statement's "finite values") -/
+theorem Svm.nonfinite_eps_rejected (p : Gen.C04.Svm.Params) (h : ¬ p.solver_params_eps.Finite) :
+    Gen.C04.Svm.check p ≠ .ok () := by
+  obtain ⟨eps, c, nu, platt⟩ := p
+  intro hc
+  have hm := (firstErr_ok_iff _).mp hc
+  have h1 := hm (if (((XF.isNegative eps) || (XF.isNan eps)) || (XF.isInfinite eps)) then some "InvalidEps" else none)
+    (by simp [Gen.C04.Svm.guards])
+  cases eps <;> simp_all [XF.Finite, XF.isFinite, XF.isNegative, XF.isNan, XF.isInfinite]
+example : ¬ (XF.nan).Finite := by simp [XF.Finite, XF.isFinite]
+
+/-! ## Setter chains of `CountVectorizerParams` and of the `TfIdfVectorizer` wrapper (`cvRun` / `tfidfRun`, which the
+driver runs on every `sets=` request) -/
+
+/-- a setter that assigns no guarded field (`max_features`, `convert_to_lowercase`, `normalize`, `stopwords`) leaves the
+guarded fields alone -/
+theorem cv_unguarded_setter_id (p : Gen.C04.CountVectorizer.Params) (s : Ranges.CvSet) (h : s.isGuarded = false) :
+    Ranges.CvSet.apply p s = p := by
+  cases s <;> simp_all [Ranges.CvSet.apply, Ranges.CvSet.isGuarded]
+
+/-- … wherever such calls stand in a chain, and however many there are: the parameters a chain leaves are those of the
+chain with these calls removed (induction over the chain, for every start state) -/
+theorem cv_chain_drop_unguarded (ops : List Ranges.CvSet) :
+    Ranges.cvRun ops = Ranges.cvRun (ops.filter Ranges.CvSet.isGuarded) := by
+  unfold Ranges.cvRun
+  generalize Ranges.cvDefault = p0
+  induction ops generalizing p0 with
+  | nil => rfl
+  | cons s rest ih =>
+    cases hs : s.isGuarded with
+    | true => simp [List.filter, hs, ih]
+    | false => simp [List.filter, hs, cv_unguarded_setter_id p0 s hs, ih]
+example : Ranges.cvRun [.maxFeatures, .nGramRange 2 1, .stopwords, .normalize] = Ranges.cvRun [.nGramRange 2 1] ∧
+    Gen.C04.CountVectorizer.check (Ranges.cvRun [.maxFeatures, .nGramRange 2 1, .stopwords, .normalize]) ≠ .ok () := by
+  refine ⟨cv_chain_drop_unguarded _, ?_⟩
+  simp [Ranges.cvRun, Ranges.CvSet.apply, Ranges.cvDefault, Gen.C04.CountVectorizer.check, Gen.C04.CountVectorizer.guards]
+
+/-- a later call of a guarded setter overrides an earlier one of the same kind: what an (invalid) earlier call left in the
+field does not survive -/
+theorem cv_setter_overrides (p p' : Gen.C04.CountVectorizer.Params) (s : Ranges.CvSet) :
+    (∀ a b, s = .nGramRange a b → (Ranges.CvSet.apply p s).n_gram_range = (Ranges.CvSet.apply p' s).n_gram_range) ∧
+    (∀ lo hi, s = .documentFrequency lo hi → (Ranges.CvSet.apply p s).document_frequency = (Ranges.CvSet.apply p' s).document_frequency) ∧
+    (∀ ok, s = .tokenizerRegex ok → (Ranges.CvSet.apply p s).split_regex_ok = (Ranges.CvSet.apply p' s).split_regex_ok) := by
+  refine ⟨?_, ?_, ?_⟩ <;> intros <;> subst_vars <;> rfl
+
+/-- the wrapper's chain (every call through `tfidfSet`) leaves exactly the inner builder's chain result next to an untouched
+method; hence `TfIdfVectorizer::fit*` after the chain returns the checking error of the inner chain -/
+theorem tfidf_chain {M E Mo Mo' D : Type} (m : M) (ops : List Ranges.CvSet)
+    (fit : Gen.C04.CountVectorizer.Params → D → Except String Mo) (wrap : Mo → Mo') (d : D) :
+    (Ranges.tfidfRun m ops).1 = Ranges.cvRun ops ∧ (Ranges.tfidfRun m ops).2 = m ∧
+    (∀ e, Gen.C04.CountVectorizer.check (Ranges.cvRun ops) = .error e →
+      wrapUnchecked Gen.C04.CountVectorizer.check fit wrap (Ranges.tfidfRun m ops).1 d = .error e) := by
+  have key : ∀ (w : Gen.C04.CountVectorizer.Params × M),
+      (ops.foldl (fun w s => Ranges.tfidfSet (fun p => Ranges.CvSet.apply p s) w) w) = (ops.foldl Ranges.CvSet.apply w.1, w.2) := by
+    induction ops with
+    | nil => intro w; rfl
+    | cons s rest ih => intro w; simp only [List.foldl_cons]; rw [ih]; rfl
+  have h1 : (Ranges.tfidfRun m ops).1 = Ranges.cvRun ops := by simp [Ranges.tfidfRun, Ranges.cvRun, key]
+  refine ⟨h1, by simp [Ranges.tfidfRun, key], fun e he => ?_⟩
+  rw [h1]
+  exact (wrap_on_unchecked _ fit wrap _ d).1 e he
+example : (Ranges.tfidfRun "smooth" [.documentFrequency (.fin 0) (.fin 2), .maxFeatures]).2 = "smooth" ∧
+    (Ranges.tfidfRun "smooth" [.documentFrequency (.fin 0) (.fin 2), .maxFeatures]).1.document_frequency = (.fin 0, .fin 2) := by
+  simp [Ranges.tfidfRun, Ranges.tfidfSet, Ranges.CvSet.apply]
 
 /-! ## Which error, concretely — order-free: the error names a documented bound the parameters violate
 
